@@ -498,6 +498,7 @@ type FuncContract struct {
 	Opaque    bool
 	NilChecks bool
 	Lets      []letDef
+	Afters    []afterDef
 	ReplayExpr string // Go boolean expression over p_<param> / r_<result>: the postcondition, for replaying models
 	ReplayHelp string // helper file under /verif/replay appended to the generated test
 	Atomic     bool
@@ -506,6 +507,15 @@ type FuncContract struct {
 type letDef struct {
 	Name string
 	Expr *CExpr
+}
+
+// afterDef: "after <callee key> let NAME = expr" - expr is evaluated in the state right after a call to
+// the callee returns (in the body of the function under contract) and NAME denotes that value in the
+// postconditions; if the callee is called several times the last call wins.
+type afterDef struct {
+	Callee string
+	Name   string
+	Expr   *CExpr
 }
 
 type SpecFunc struct {
@@ -547,7 +557,7 @@ var clauseKeywords = map[string]bool{
 	"property": true, "spec": true, "axiom": true, "lemma": true, "func": true, "requires": true, "ensures": true,
 	"modifies": true, "pure": true, "inline": true, "assume": true, "loop": true, "invariant": true, "decreases": true,
 	"unroll": true, "logical": true, "sort": true, "noreturn": true, "nilable": true, "trusted": true, "alloc_bound": true,
-	"const": true, "opaque": true, "nilchecks": true, "let": true, "ghost": true, "ghostfield": true, "macro": true, "mapinv": true, "replay": true, "replayhelp": true, "atomic": true, "defines": true, "objinv": true,
+	"const": true, "opaque": true, "nilchecks": true, "let": true, "after": true, "ghost": true, "ghostfield": true, "macro": true, "mapinv": true, "replay": true, "replayhelp": true, "atomic": true, "defines": true, "objinv": true,
 }
 
 type rawClause struct {
@@ -820,6 +830,18 @@ func (db *ContractDB) LoadFile(path string) error {
 					return fmt.Errorf("%s:%d: %v", path, rc.line, err)
 				}
 				cur.Lets = append(cur.Lets, letDef{strings.TrimSpace(parts[0]), e})
+			case "after":
+				// after <callee> let NAME = expr
+				f := strings.Fields(rc.text)
+				if len(f) < 5 || f[1] != "let" || !strings.Contains(rc.text, "=") {
+					return fmt.Errorf("%s:%d: after <callee> let NAME = expr", path, rc.line)
+				}
+				parts := strings.SplitN(rc.text, "=", 2)
+				e, err := ParseCExpr(parts[1])
+				if err != nil {
+					return fmt.Errorf("%s:%d: %v", path, rc.line, err)
+				}
+				cur.Afters = append(cur.Afters, afterDef{f[0], f[2], e})
 			case "replay":
 				cur.ReplayExpr = strings.TrimSpace(rc.text)
 			case "replayhelp":
